@@ -130,6 +130,12 @@ def main(tier):
     for p in procs:
         if p.wait() != 0:
             raise ToolError("conf fresh failed")
+    # ... and in DUPLICATED process images: a process that has created archives forks three children; parent and children
+    # go on creating archives with identical inputs (whatever generator state the library keeps is the same in all four)
+    fp = os.path.join(wd, "forked")
+    if subprocess.run([exe, "conf", "forkfresh", fp, "f", "6" if tier == "quick" else "40"]).returncode != 0:
+        raise ToolError("conf forkfresh failed")
+    parts += [fp + ".parent.ndjson"] + [f"{fp}.child{k}.ndjson" for k in range(3)]
     hp = os.path.join(wd, "history.ndjson")
     with open(hp, "w") as f:
         for tp in parts:
